@@ -198,6 +198,9 @@ func c07Sim(r *simcore.Run) {
 			switch {
 			case !exists:
 				w = c07Write{"create", src, genSet()}
+				if s.Draw(4, "first-version-as-update") == 3 {
+					w.kind = "update" // as the kubernetes provider reports the version after a refused or unloaded one
+				}
 				exists = true // if the create is rejected the following update is an update of nothing; keep plans legal: stop after a possible rejection
 			case s.Draw(4, "del") == 0:
 				w = c07Write{"delete", src, nil}
